@@ -566,7 +566,7 @@ class FuncTranslator(object):
                 return AV(funcs=[('ext', 'warnings.warn')]) if dotted.endswith('te') else NB
             fail(node, 'cannot resolve %s' % dotted)
         top = dotted.split('.')[0]
-        if top in ('numpy', 'scipy', 'os', 'sys', 'time', 'math', 'warnings', 'glob', 're', 'platform',
+        if top in ('numpy', 'scipy', 'os', 'sys', 'time', 'math', 'warnings', 'glob', 're', 'platform', 'tempfile',
                    'itertools', 'six', 'png', 'timeit', 'matplotlib'):
             if top == 'numpy' and dotted.split('.')[-1] in NP.NUMPY_CONSTANTS and dotted.count('.') == 1:
                 return NB
@@ -1350,8 +1350,9 @@ class FuncTranslator(object):
         spec = NP.EXT.get(name)
         if name == 'builtins.print' or name.startswith('builtins.') and name.endswith(('Error', 'Warning', 'Exception')):
             return NB
-        if name == 'numpy.array' and any(k == 'copy' for k, _ in kws):
-            spec = 'view:0'
+        if name == 'numpy.array' and any(k.arg == 'copy' and not (isinstance(k.value, ast.Constant) and k.value.value is True)
+                                         for k in n.keywords):
+            spec = 'view:0'             # np.array(x, copy=False / copy=<expr>) may return x itself
         if name == 'builtins.dict' and not args:
             j = join(*[a for _, a in kws]) if kws else NB
             return AV(j.srcs, True, 'cont', j.funcs, None, (), True)
@@ -1835,7 +1836,36 @@ def build(repo=None):
     w.needed = set()
     w.global_classes = {}
     # classes assigned to module globals (e.g. rbasex._dst = Distributions(...))
+    def class_of_call(m, call):
+        d = dotted_name(call.func)
+        if d is None:
+            return None
+        head = d.split('.')[0]
+        if head in m.classes and '.' not in d:
+            return m.name + '.' + d
+        if head in m.imports:
+            r = w.lookup(m.imports[head] + d[len(head):])
+            if r is not None and r[0] == 'class':
+                return w.canon(m.imports[head] + d[len(head):])
+        return None
     for m in w.modules.values():
+        # `g = x` where the local x was built by `x = Cls(...)` in the same function
+        for fn in ast.walk(m.tree):
+            if not isinstance(fn, ast.FunctionDef):
+                continue
+            local_cls = {}
+            for n in ast.walk(fn):
+                if isinstance(n, ast.Assign) and isinstance(n.value, ast.Call):
+                    c = class_of_call(m, n.value)
+                    if c:
+                        for t in n.targets:
+                            if isinstance(t, ast.Name):
+                                local_cls.setdefault(t.id, set()).add(c)
+            for n in ast.walk(fn):
+                if isinstance(n, ast.Assign) and isinstance(n.value, ast.Name) and n.value.id in local_cls:
+                    for t in n.targets:
+                        if isinstance(t, ast.Name) and t.id in m.globals:
+                            w.global_classes.setdefault((m.name, t.id), set()).update(local_cls[n.value.id])
         for n in ast.walk(m.tree):
             if isinstance(n, ast.Assign) and isinstance(n.value, ast.Call):
                 d = dotted_name(n.value.func)
